@@ -173,6 +173,7 @@ Definition keys (g : meta) : list Z := map mn_key (m_nodes g).
 Record relabelled (f finv : Z -> Z) (g g' : meta) : Prop := {
   r_nodes : Permutation (map (ren_node f) (m_nodes g)) (m_nodes g');
   r_edges : forall a b, In a (keys g) -> In b (keys g) -> has_medge g' (f a) (f b) = has_medge g a b;
+  r_labels : forall a b, In a (keys g) -> In b (keys g) -> mlabel g' (f a) (f b) = mlabel g a b;
   r_inv : forall a, In a (keys g) -> finv (f a) = a;
   r_keys : NoDup (keys g);
   r_resids : NoDup (map mn_resid (m_nodes g)) }.
@@ -248,8 +249,10 @@ Qed.
 Lemma induced_ok_ren l mu : mu_in mu -> induced_ok g' l (ren_mu f mu) = induced_ok g l mu.
 Proof.
   intros Hin. unfold induced_ok, ren_mu. rewrite forallb_map_local. apply forallb_ext_in_local. intros [o n] Hp. rewrite forallb_map_local. apply forallb_ext_in_local.
-  intros [o2 n2] Hq. cbn [fst snd]. destruct (order_eqb o o2); [reflexivity|]. f_equal.
-  apply (r_edges _ _ _ _ R); apply Hin; apply in_map_iff; [exists (o, n)|exists (o2, n2)]; auto.
+  intros [o2 n2] Hq. cbn [fst snd]. destruct (order_eqb o o2); [reflexivity|].
+  assert (Hn : In n (keys g)) by (apply Hin; apply in_map_iff; exists (o, n); auto).
+  assert (Hn2 : In n2 (keys g)) by (apply Hin; apply in_map_iff; exists (o2, n2); auto).
+  rewrite (r_edges _ _ _ _ R n n2 Hn Hn2), (r_labels _ _ _ _ R n n2 Hn Hn2). reflexivity.
 Qed.
 End Relabel.
 
@@ -465,10 +468,12 @@ Open Scope string_scope.
 Definition ex_at (k : Z) : ratom := {| ra_key := k; ra_name := "EC"; ra_resname := "PEO" |}.
 Definition ex_g : meta :=
   {| m_nodes := [{| mn_key := 0; mn_resid := 1; mn_atoms := [ex_at 0] |}; {| mn_key := 1; mn_resid := 2; mn_atoms := [ex_at 1] |};
-                 {| mn_key := 2; mn_resid := 3; mn_atoms := [ex_at 2] |}]; m_edges := [(0, 1); (1, 2)] |}.
+                 {| mn_key := 2; mn_resid := 3; mn_atoms := [ex_at 2] |}]; m_edges := [(0, 1); (1, 2)];
+     m_labels := [(1, 2, "a16")] |}.
 Definition ex_g' : meta :=
   {| m_nodes := [{| mn_key := 5; mn_resid := 2; mn_atoms := [ex_at 1] |}; {| mn_key := 12; mn_resid := 1; mn_atoms := [ex_at 0] |};
-                 {| mn_key := 9; mn_resid := 3; mn_atoms := [ex_at 2] |}]; m_edges := [(9, 5); (5, 12)] |}.
+                 {| mn_key := 9; mn_resid := 3; mn_atoms := [ex_at 2] |}]; m_edges := [(9, 5); (5, 12)];
+     m_labels := [(9, 5, "a16")] |}.
 Definition ex_f (k : Z) : Z := if Z.eqb k 0 then 12 else if Z.eqb k 1 then 5 else 9.
 Definition ex_finv (k : Z) : Z := if Z.eqb k 12 then 0 else if Z.eqb k 5 then 1 else 2.
 
@@ -476,6 +481,8 @@ Example ex_relabelled : relabelled ex_f ex_finv ex_g ex_g'.
 Proof.
   constructor.
   - cbn. apply perm_swap.
+  - intros a b Ha Hb. cbn in Ha, Hb.
+    destruct Ha as [<- | [<- | [<- | []]]]; destruct Hb as [<- | [<- | [<- | []]]]; reflexivity.
   - intros a b Ha Hb. cbn in Ha, Hb.
     destruct Ha as [<- | [<- | [<- | []]]]; destruct Hb as [<- | [<- | [<- | []]]]; reflexivity.
   - intros a Ha. cbn in Ha. destruct Ha as [<- | [<- | [<- | []]]]; reflexivity.
@@ -487,8 +494,8 @@ Example ex_relabel_links :
   let la k o := {| la_key := k; la_name := "EC"; la_order := o; la_resnames := ["PEO"]; la_replace := [] |} in
   let l := {| l_atoms := [la "EC" (ONum 0); la "+EC" (ONum 1)];
               l_inters := [{| li_sec := "bonds"; li_atoms := ["EC"; "+EC"]; li_params := ["1"; "0.33"; "7000"]; li_version := 1; li_meta := [] |}];
-              l_edges := [("EC", "+EC")]; l_res_nodes := [ONum 0; ONum 1]; l_res_edges := [(ONum 0, ONum 1)] |} in
-  apply_links ex_g' [] [l] = apply_links ex_g [] [l] /\ List.length (apply_links ex_g [] [l]) = 2%nat.
+              l_edges := [("EC", "+EC")]; l_res_nodes := [ONum 0; ONum 1]; l_res_edges := [(ONum 0, ONum 1)]; l_res_labels := [] |} in
+  apply_links ex_g' [] [l] = apply_links ex_g [] [l] /\ List.length (apply_links ex_g [] [l]) = 1%nat.
 Proof.
   cbv zeta. split; [|vm_compute; reflexivity].
   apply (apply_links_relabel ex_f ex_finv ex_g ex_g' ex_relabelled). constructor; [|constructor]. cbn. repeat constructor; cbn; intuition discriminate.
